@@ -1,5 +1,6 @@
 import Ntrip.Proofs.SegmentRefine
 import Ntrip.Proofs.Normalise
+import Ntrip.Model.SegmentT
 /-!
 # C12 — a frame corrupted in payload or CRC is discarded alone; its neighbours survive
 
@@ -47,6 +48,29 @@ theorem one_victim (crc : Bytes → Nat) (pre post : List Seg) (f f' : Bytes) (t
       · exact hf'
       · exact hpost s hs
 
+/-- **The neighbours' time lines survive too.**  In the model with the handler's time state
+    threaded through (`segmentT`: what the consumer sees, `SentAt` and `StartOfWeek` included), a
+    corrupted frame is delivered without time lines and leaves the time state exactly as it
+    found it - for every state and every altered content, an MSM-typed victim with a plausible
+    timestamp included.  Everything the following frames are told about time is therefore what
+    they would have been told had the victim not been there. -/
+theorem corrupted_frame_keeps_time_state (crc : Bytes → Nat) (st : TState) (f' : Bytes)
+    (hc : Corrupted crc f') :
+    msgTOfFrame crc st f' = (MsgT.ofMsg { typ := -1, raw := f', err := .crc }, st) := by
+  have hm := msgOfFrame_corrupt hc
+  unfold msgOfFrame at hm
+  unfold msgTOfFrame getMessage
+  cases hg : getMessageCore crc f' with
+  | empty =>
+    rw [hg] at hm
+    simp only [nonRTCM] at hm
+    cases hm
+  | msg m =>
+    rw [hg] at hm
+    simp only at hm
+    subst hm
+    simp [addTime]
+
 /-- What a corrupted frame is delivered as. -/
 theorem corrupt_expected (f : Bytes) : (Seg.corrupt f).expected = { typ := -1, raw := f, err := .crc } := rfl
 
@@ -57,5 +81,12 @@ def F1bad : Bytes := [0xD3, 0x00, 0x02, 0x3E, 0xD3] ++ crcBytes (crc24q [0xD3, 0
 example : Corrupted crc24q F1bad :=
   ⟨⟨F1, ⟨by decide, by decide +kernel, by decide +kernel, by decide +kernel, by decide +kernel⟩,
     by decide, by decide⟩, by decide +kernel⟩
+
+/-- Non-vacuity (a test): the concrete corrupted frame above, seen by a handler started at some
+    instant, comes out without time lines and the handler's state is what it was. -/
+example : (msgTOfFrame crc24q (newState 1683979200000) F1bad).2 = newState 1683979200000 :=
+  congrArg Prod.snd (corrupted_frame_keeps_time_state crc24q _ F1bad
+    ⟨⟨F1, ⟨by decide, by decide +kernel, by decide +kernel, by decide +kernel, by decide +kernel⟩,
+      by decide, by decide⟩, by decide +kernel⟩)
 
 end Ntrip.C12
